@@ -949,6 +949,7 @@ Proof.
     destruct k; simpl; try exact H.
     + unfold Inv; simpl. apply InvC_create; assumption.
     + unfold Inv; simpl. apply InvC_create; assumption.
+    + unfold Inv; simpl. apply InvC_create; assumption.
     + apply Inv_delete; assumption.
     + apply Inv_delete; assumption.
     + destruct (find_entry id (clients st)) as [e|]; [destruct (kind_eqb (e_kind e) Pub)|]; exact H.
@@ -1031,6 +1032,16 @@ Proof.
   destruct Ho as [s [Hs [Hsid _]]]. apply in_map_iff. exists s. tauto.
 Qed.
 
+Lemma open_owned : forall st out, Inv st ->
+  forallb (owned_in (ob_sessions (obs_of st out))) (ob_open (obs_of st out)) = true.
+Proof.
+  intros st out H. apply forallb_forall. intros e He. simpl in He.
+  destruct H. destruct (inv_own_m0 e He) as [s [Hs [Hsid Hw]]].
+  unfold owned_in. apply existsb_exists. exists (ss_sid s, ss_pubs s, ss_subs s). split.
+  - simpl. apply in_map_iff. exists s. split; [reflexivity | assumption].
+  - simpl. rewrite Hsid, N.eqb_refl. simpl. unfold owns in Hw. destruct (e_kind e); exact Hw.
+Qed.
+
 Lemma send_open : forall st c m, cs_closed (conns st c) = false -> send st c m = [(c, m)].
 Proof. intros st c m H. unfold send. rewrite H. reflexivity. Qed.
 
@@ -1082,7 +1093,7 @@ Proof.
   - unfold chk_sessions. rewrite Hnew. destruct o; reflexivity.
   - unfold chk_prehello. destruct o; simpl in Hc; try discriminate; inversion Hc; subst; simpl; try reflexivity;
       destruct (bound b c); try reflexivity; rewrite N.eqb_refl; simpl; apply pobs_same.
-  - unfold chk_cleanup. rewrite owners_live by assumption.
+  - unfold chk_cleanup. rewrite owners_live by assumption. rewrite open_owned by assumption.
     destruct o; simpl in Hc; try discriminate; try reflexivity; simpl in Hbye; rewrite Hbye; reflexivity.
   - unfold chk_ids. destruct (named_id o) as [[c1 id]|] eqn:En; [|reflexivity].
     assert (c1 = c) by (destruct o as [| | |? k| | | | | | | | | |]; simpl in *; try discriminate; [destruct k|]; simpl in *; congruence).
@@ -1107,7 +1118,7 @@ Lemma chk_cleanup_plain : forall st' b prev o out, Inv st' ->
   match o with OMcuLost | OBye _ | OExpire _ | OByeIn _ _ | OExpireIn _ _ => False | _ => True end ->
   chk_cleanup b prev o (obs_of st' out) = true.
 Proof.
-  intros st' b prev o out HI Ho. unfold chk_cleanup. rewrite owners_live by assumption.
+  intros st' b prev o out HI Ho. unfold chk_cleanup. rewrite owners_live by assumption. rewrite open_owned by assumption.
   destruct o; try reflexivity; contradiction.
 Qed.
 
@@ -1183,7 +1194,7 @@ Proof.
     + apply chk_sessions_quiet; assumption.
     + unfold chk_prehello. destruct o; try contradiction; simpl; [|reflexivity].
       destruct Ho as [Ho1 Ho2]. rewrite (Hb c Ho1), Ho2. reflexivity.
-    + unfold chk_cleanup. rewrite owners_live by assumption. rewrite sids_obs.
+    + unfold chk_cleanup. rewrite owners_live by assumption. rewrite open_owned by assumption. rewrite sids_obs.
       apply memN_false in Hgone.
       destruct o; try contradiction; simpl.
       * destruct Ho as [Ho1 Ho2]. rewrite (Hb c Ho1), Ho2, Hgone. reflexivity.
@@ -1219,7 +1230,7 @@ Proof.
     + apply chk_sessions_quiet; assumption.
     + unfold chk_prehello. destruct o; try contradiction; simpl; try reflexivity;
         destruct Ho as [Ho1 Ho2]; rewrite (Hb _ Ho1), Ho2; reflexivity.
-    + unfold chk_cleanup. rewrite owners_live by assumption. rewrite sids_obs.
+    + unfold chk_cleanup. rewrite owners_live by assumption. rewrite open_owned by assumption. rewrite sids_obs.
       apply memN_false in Hgone.
       destruct o; try contradiction; simpl.
       * destruct Ho as [Ho1 Ho2]. rewrite (Hb _ Ho1), Ho2, Hgone. reflexivity.
@@ -1405,8 +1416,16 @@ Proof.
   - (* command *)
     destruct (cs_sess (conns st c)) as [sid0|] eqn:Es; [|err_case Hb].
     assert (Hbd : bound b c = Some sid0) by congruence.
-    destruct k as [ | | id | id | id | ]; cbn [command] in *.
+    destruct k as [ | | | id | id | id | ]; cbn [command] in *.
     + (* create-publisher *)
+      unfold create in *. simpl in *. split.
+      * unfold chk_step. cbn [ob_applied obs_of applied]. four.
+        -- apply chk_sessions_quiet; [auto | reflexivity].
+        -- unfold chk_prehello. simpl. rewrite Hbd. reflexivity.
+        -- apply chk_cleanup_plain; [assumption | exact I].
+        -- reflexivity.
+      * eapply bind_ok_upd; [reflexivity | exact Hb | simpl; auto].
+    + (* create-subscriber *)
       unfold create in *. simpl in *. split.
       * unfold chk_step. cbn [ob_applied obs_of applied]. four.
         -- apply chk_sessions_quiet; [auto | reflexivity].
@@ -1462,7 +1481,7 @@ Proof.
       * apply chk_sessions_quiet; [|apply hello_sids_flat; exact I].
         simpl. rewrite map_map. simpl. auto.
       * reflexivity.
-      * unfold chk_cleanup. rewrite owners_live by assumption.
+      * unfold chk_cleanup. rewrite owners_live by assumption. rewrite open_owned by assumption.
         cbn [ob_clients ob_open obs_of andb].
         destruct HI. rewrite (drop_all_nil (sessions st) (clients st)) by assumption.
         rewrite (drop_all_nil (sessions st) (mopen st)) by assumption.
@@ -1807,3 +1826,29 @@ Lemma create_after_close_repaired :
   P_C18 sv_all keys_all (trace_of sv_all keys_all true witness_ops) = true /\
   clients (run_gen true witness_ops) = [] /\ mopen (run_gen true witness_ops) = [].
 Proof. vm_compute. auto. Qed.
+
+(* ---- remote subscribers: the references of the remote publisher ------------------ *)
+(* after the handler the remote publisher is open exactly when the subscriber was
+   created (the completion the model stores, is_ok), with exactly one reference:
+   the subscriber's *)
+Lemma remote_refs_handler : forall r,
+  refs_after (handler_refops true r) = if is_ok (rres_mres r) then Some 1 else None.
+Proof. destruct r; reflexivity. Qed.
+
+(* ... and the Close of that subscriber closes it: nothing stays open *)
+Lemma remote_refs_closed : forall r,
+  refs_after (handler_refops true r ++ sub_close_refops r) = None.
+Proof. destruct r; reflexivity. Qed.
+
+(* a failed request leaves nothing at any point after the handler *)
+Lemma remote_refs_failed : forall r, is_ok (rres_mres r) = false ->
+  refs_after (handler_refops true r) = None /\ sub_close_refops r = [].
+Proof. destruct r; simpl; intro H; try discriminate; split; reflexivity. Qed.
+
+(* giving the creator's reference back only after NewRemoteSubscriber succeeded is
+   not enough: the remote publisher of a request whose attach failed stays open
+   with one reference, no subscriber exists whose Close would release it *)
+Lemma remote_refs_release_late_refuted : exists r,
+  is_ok (rres_mres r) = false /\ sub_close_refops r = [] /\
+  refs_after (handler_refops false r ++ sub_close_refops r) = Some 1.
+Proof. exists RRSubFail. repeat split. Qed.
